@@ -168,7 +168,7 @@ def build_grid(d):
         return OneDGrid(cast(f([r[0] for r in d["points"]]), "pdtype"), cast(f(d["weights"]), "wdtype"), dom)
     if k == "AtomGrid":
         rg = OneDGrid(f(d["radii"]), np.ones(len(d["radii"])), (0, np.inf))
-        return AtomGrid(rg, degrees=[3], center=None if d["center"] is None else f(d["center"]))
+        return AtomGrid(rg, degrees=[d.get("degree", 3)], center=None if d["center"] is None else f(d["center"]))
     if k == "MolGrid":
         ats = [build_grid({"kind": "AtomGrid", **a}) for a in d["atoms"]]
         return MolGrid(np.ones(len(ats), dtype=int), ats, f(d["aim"]))
@@ -466,6 +466,7 @@ def gen_ops(rng, desc, pub, flat, maxlen):
     selectable = kind in SELECTABLE
     periodic = kind == "PeriodicGrid"
     ops = []
+    ctx_repeat = [0]
 
     def gen_index():
         m = rng.random()
@@ -526,6 +527,14 @@ def gen_ops(rng, desc, pub, flat, maxlen):
             else:
                 rad = rng.choice(["neg", "nan"])
             o = {"op": "query", "centre": centre, "radius": rad}
+            prev = [q for q in ops if q["op"] == "query"]
+            if prev and rng.random() < 0.2:
+                # the very same (centre, radius) as an earlier query: the answer must reflect what was reassigned in between
+                o = {"op": "query", "centre": dict(rng.choice(prev)["centre"]), "radius": rng.choice(prev)["radius"]}
+                if rng.random() < 0.5:
+                    q0 = rng.choice(prev)
+                    o = {"op": "query", "centre": dict(q0["centre"]), "radius": q0["radius"]}
+                ctx_repeat[0] += 1
             if rng.random() < 0.25:
                 # follow-up query ON the returned local grid (it is a grid in its own right)
                 c2 = list(rng.choice(cur)) if rng.random() < 0.6 else [x + ri(-1, 1) for x in c]
@@ -657,7 +666,7 @@ def anchored_units():
 # finite-radius query has built the neighbour tree, points (weights) are REASSIGNED to a tiny perturbation / an equal copy /
 # a permuted copy / the same array object edited in place before the reassignment, and a later query whose sphere boundary
 # lies between a point's old and new distance must answer for the new values.
-MARGIN = 2e-14  # every point must be off the sphere boundary by this relative margin in d^2 (float round-off is ~5e-16)
+MARGIN = 2e-14  # every point must be off the sphere boundary by this margin in d^2, relative to max(d^2, r^2) (float round-off ~5e-16)
 
 
 def fbits(row) -> tuple:
@@ -674,7 +683,10 @@ def float_expected(g, centre, r):
     out = []
     for i, row in enumerate(rows):
         d2 = sum((Fraction(float(x)) - y) ** 2 for x, y in zip(row, c))
-        if abs(float(d2 - r2)) <= MARGIN * max(1.0, float(r2)):
+        if d2 == 0:            # the point IS the centre: distance exactly 0 also in floats, inside for every radius >= 0
+            out.append((i, fbits(row), wbits(W[i])))
+            continue
+        if abs(float(d2 - r2)) <= MARGIN * max(float(d2), float(r2)):
             return None
         if d2 <= r2:
             out.append((i, fbits(row), wbits(W[i])))
@@ -865,6 +877,39 @@ def gen_form_history(rng, kind):
         st["r"] = r
         st["rform"] = rng.choice(["float", "float", "np64", "np32"] + (["int"] if float(r).is_integer() else []))
         steps.append(st)
+    return desc, steps
+
+
+def gen_atom_history(rng, kind):
+    """Atomic / molecular grids as they occur in practice: nucleus at coordinates that are not exactly representable, radial
+    shells from 1e-6 upwards.  Queries centred exactly on a parent point (radius 0, tiny, a shell radius) or on the nucleus with
+    a radius a hair beyond / short of a shell; the parent points are the PUBLIC points (rounded sums nucleus + offset)."""
+    def atom():
+        radii = sorted(rng.sample([1e-6, 1e-5, 1e-4, 1e-3, 0.01, 0.1, 0.5, 1.0, 2.5], rng.randint(2, 4)))
+        return {"radii": radii, "center": [round(rng.uniform(-60, 60), 1) for _ in range(3)], "degree": rng.choice([3, 3, 5, 7])}
+    if kind == "AtomGrid":
+        desc = {"kind": "AtomGrid", **atom()}
+        atoms = [desc]
+    else:
+        atoms = [atom() for _ in range(rng.randint(1, 2))]
+        n = sum(build_grid({"kind": "AtomGrid", **a}).size for a in atoms)
+        desc = {"kind": "MolGrid", "atoms": atoms, "aim": [1] * n}
+    g = build_grid(desc)
+    P = np.asarray(g.points, dtype=float)
+    steps = []
+    for _ in range(rng.randint(1, 3)):
+        a = rng.choice(atoms)
+        m = rng.random()
+        if m < 0.5:      # centred exactly on one of the parent's points
+            c = [float(v) for v in P[rng.randrange(len(P))]]
+            r = rng.choice([0.0, 0.0, 1e-300, 1e-12, rng.choice(a["radii"]), rng.choice(a["radii"]) * (1 + rng.choice((1, -1)) * 1e-6)])
+        elif m < 0.85:   # centred on the nucleus, radius next to a shell radius
+            c = [float(v) for v in a["center"]]
+            r = rng.choice(a["radii"]) * (1 + rng.choice((1, -1)) * rng.choice([1e-9, 1e-6, 1e-3, 1e-2, 0.3]))
+        else:
+            c = [float(v) + rng.choice([-0.5, 0.25, 1e-5]) for v in P[rng.randrange(len(P))]]
+            r = rng.choice(a["radii"]) * rng.choice([0.5, 1.0, 1.7])
+        steps.append({"op": "query", "centre": c, "cform": rng.choice(["array64", "list", "tuple"]), "r": r})
     return desc, steps
 
 
@@ -1153,6 +1198,32 @@ def run(ctx: Ctx):
             ctx.fail("query_refines_spec", "form:" + json.dumps(hist, separators=(",", ":"), sort_keys=True), fshort(ob),
                      f"{kind} (points {desc.get('pdtype', 'as built by the library')}): step {j} {json.dumps(steps[j])} observed {fshort(ob)}, "
                      f"the sphere asked for requires {fshort(exp)}",
+                     {"float_history": hist, "observed_full": ob, "expected": exp})
+    # atomic / molecular grids with realistic (non-representable) nuclei and tiny shells
+    na, done, agroups = (300 if ctx.quick else 3000), 0, set()
+    while done < na:
+        kind = ("AtomGrid", "AtomGrid", "MolGrid")[done % 3]
+        desc, steps = gen_atom_history(rng, kind)
+        try:
+            j, ob, exp, integ, skip = run_float_history(desc, steps)
+        except Exception as e:  # noqa: BLE001
+            j, ob, exp, skip = len(steps) - 1, f"{type(e).__name__}: {str(e)[:80]}", "no exception", False
+        done += 1
+        ctx.case(json.dumps({"grid": desc, "steps": steps}, sort_keys=True), traces=len(steps))
+        ctx.count(f"atoms:{kind}:radius-{'zero' if steps[-1]['r'] == 0 else 'tiny' if steps[-1]['r'] < 1e-9 else 'shell'}")
+        if skip:
+            skipped += 1
+            continue
+        if j is not None:
+            freports += 1
+            group = (kind, steps[j]["r"] == 0, steps[j]["r"] < 1e-9)
+            if group in agroups:
+                continue
+            agroups.add(group)
+            hist = {"grid": desc, "steps": steps[: j + 1]}
+            ctx.fail("query_refines_spec", "atoms:" + json.dumps(hist, separators=(",", ":"), sort_keys=True), fshort(ob),
+                     f"{kind} {json.dumps(desc)}: get_localgrid({steps[j]['centre']}, {steps[j]['r']!r}) observed {fshort(ob)}, "
+                     f"the parent's points within that sphere are {fshort(exp)}",
                      {"float_history": hist, "observed_full": ob, "expected": exp})
     ctx.count("float:skipped-boundary-margin", skipped)
     ctx.cov["float_history_failures"] = freports
